@@ -24,14 +24,22 @@ Differing(e) == {k \in Keys : e.va[k] # e.vb[k]}
 RECURSIVE Names(_)
 Names(S) == IF S = {} THEN "" ELSE LET k == CHOOSE x \in S : TRUE IN k \o " " \o Names(S \ {k})
 
-NoChainReq(ms) == SelectSeq(ms, LAMBDA m : ~(m[2] = "send" /\ m[3] = 5))
+(* also left out: relayed transactions (type 4) - when no block is produced the node relays everything that was  *)
+(* staged since the last attempt, valid or not ("TODO : return if tx is not valid" in propagate_transaction), so  *)
+(* honest peers are sent a hostile peer's rejected transactions; what they rely on in this node is unchanged      *)
+NoChainReq(ms) == SelectSeq(ms, LAMBDA m : ~(m[2] = "send" /\ m[3] \in {4, 5}))
+
+OwnBlock(e) == e.op = "tick" /\ (e.va.tiph > tipA \/ e.vb.tiph > tipA)
 
 StepChecks(e) ==
     IF IsPanic(e.res) THEN {Bad(e, "handler-panicked")}
     ELSE IF IsPanic(e.resb) THEN {Bad(e, "handler-panicked-on-honest-input")}
     ELSE IF e.crash_only THEN {}        \* a lite client does not validate: only crash freedom is demanded of it
     ELSE
-      (IF ~diverged /\ Differing(e) # {}
+      \* A timer step on which either twin produced a block of its own ends the comparison without a verdict:
+      \* the node that also saw the hostile input holds, in its pool, valid transactions it learned from
+      \* rejected blocks (9.3), so the two producers legitimately make different blocks
+      (IF ~diverged /\ Differing(e) # {} /\ ~OwnBlock(e)
        THEN {Bad(e, (IF e.hostile THEN "hostile-input-changed-honest-view: " ELSE "honest-view-diverged-later: ") \o Names(Differing(e)))}
        ELSE {})
       \* Requests for the chain (message type 5) are left out: every run of the block queue re-issues one
